@@ -369,5 +369,223 @@ theorem llLoop_get (m : Mode) (ashape fshape : List Nat) (fp : Array Bool)
       rw [e1, e2]
       exact ih (l + 1) L (by omega)
 
+/-! ### a table entry computed at the representative position is the closed form -/
+
+theorem closedForm_cons (m : Mode) (a f : Nat) (as fs : List Nat) (p k : Int) (ps ks : List Int) :
+    closedForm m (a :: as) (f :: fs) (p :: ps) (k :: ks) =
+      match fixOffset m (p + (k - ((f / 2 : Nat) : Int))) a, closedForm m as fs ps ks with
+      | some c, some r => some ((c - p) :: r)
+      | _, _ => none := by
+  simp only [closedForm, centreOf, List.map_cons, subPos, addPos, fixPos]
+  cases fixOffset m (p + (k - ((f / 2 : Nat) : Int))) a <;>
+    cases fixPos m as (addPos ps (subPos ks (List.map (fun d => ((d / 2 : Nat) : Int)) fs))) <;>
+    simp [subPos]
+
+theorem closedForm_nil_pos (m : Mode) (as fs : List Nat) (ks : List Int) :
+    closedForm m as fs [] ks = some [] := by
+  cases as <;> simp [closedForm, addPos, fixPos, subPos]
+
+/-- the position (one axis) `init_filter_offsets` was at when it stored the offsets later used at
+    array coordinate `d` -/
+def repAt (x : Nat × Nat) (d : Nat) : Int := ((rep x.1 x.2 (regionIdx x.1 x.2 d) : Nat) : Int)
+
+theorem entry_closedForm (m : Mode) : ∀ (as fs : List Nat) (ks : List Int) (ds : List Nat),
+    as.length = fs.length → ds.length = as.length → inside fs ks = true →
+    entry m as fs ks (List.zipWith repAt (as.zip fs) ds) = closedForm m as fs (ds.map Int.ofNat) ks := by
+  intro as
+  induction as with
+  | nil =>
+    intro fs ks ds _ hd _
+    have : ds = [] := by simpa using hd
+    subst this
+    simp [entry, closedForm_nil_pos]
+  | cons a as ih =>
+    intro fs ks ds hl hd hin
+    cases fs with
+    | nil => simp at hl
+    | cons f fs =>
+      cases ds with
+      | nil => simp at hd
+      | cons d ds =>
+        cases ks with
+        | nil => simp [inside] at hin
+        | cons k ks =>
+          simp only [inside, Bool.and_eq_true, decide_eq_true_eq] at hin
+          obtain ⟨⟨hk0, hk1⟩, hin'⟩ := hin
+          have hl' : as.length = fs.length := by simpa using hl
+          have hd' : ds.length = as.length := by simpa using hd
+          have key := axisOffset_rep m (a := a) (f := f) (p := d) hk0 hk1
+          unfold axisOffset at key
+          have e1 : ((d : Nat) : Int) + (k - ((f / 2 : Nat) : Int)) = k - (f : Int) / 2 + (d : Int) := by
+            omega
+          simp only [List.zip_cons_cons, List.zipWith_cons_cons, List.map_cons, entry, closedForm_cons,
+            ih fs ks ds hl' hd' hin', Int.ofNat_eq_natCast, e1]
+          have e2 : repAt (a, f) d = ((rep a f (regionIdx a f d) : Nat) : Int) := rfl
+          rw [e2]
+          generalize fixOffset m (k - (f : Int) / 2 + ((rep a f (regionIdx a f d) : Nat) : Int)) a = u at key ⊢
+          generalize fixOffset m (k - (f : Int) / 2 + (d : Int)) a = v at key ⊢
+          cases u <;> cases v <;> simp only [Option.map_some, Option.map_none] at key
+          · rfl
+          · cases key
+          · cases key
+          · cases closedForm m as fs (List.map Int.ofNat ds) ks
+            · rfl
+            · simp only [Option.some.injEq] at key
+              simp only [key]
+
+/-! ### from last-axis-first state to C-order coordinates -/
+
+theorem digC_reverse (fshape : List Nat) (k : Nat) (hk : k < shapeSize fshape) :
+    (digC fshape k).reverse = unravelI fshape k := by
+  unfold digC unravelI
+  rw [digits_eq_map, ← List.map_reverse, unravelLE_reverse fshape k hk]
+
+theorem repDigits_eq (X : Axes) (i : Nat) :
+    repDigits X i = List.zipWith repAt X (unravelLE (X.map Prod.fst) i) := by
+  induction X generalizing i with
+  | nil => rfl
+  | cons x X ih =>
+    obtain ⟨a, f⟩ := x
+    simp only [repDigits, List.map_cons, unravelLE, List.zipWith_cons_cons, ih, repAt]
+
+theorem repDigits_reverse (ashape fshape : List Nat) (hlen : ashape.length = fshape.length)
+    (i : Nat) (hi : i < shapeSize ashape) :
+    (repDigits (axesOf ashape fshape) i).reverse =
+      List.zipWith repAt (ashape.zip fshape) (unravel ashape i) := by
+  rw [repDigits_eq, List.reverse_zipWith (by simp [unravelLE_length]), axesOf_fst ashape fshape hlen,
+    unravelLE_reverse ashape i hi]
+  simp [axesOf]
+
+theorem mem_fpIdx_lt {fshape : List Nat} {fp : Array Bool} {k : Nat} (h : k ∈ fpIdx fshape fp) :
+    k < shapeSize fshape := by
+  unfold fpIdx at h
+  exact List.mem_range.mp (List.mem_filter.mp h).1
+
+theorem footprintCoords_eq (fshape : List Nat) (fp : Array Bool) :
+    footprintCoords fshape fp = (fpIdx fshape fp).map (unravelI fshape) := rfl
+
+/-- `filter_iterator::size()` is the number of footprint elements -/
+theorem mkFIter_size (m : Mode) (ashape fshape : List Nat) (fp : Array Bool) :
+    (mkFIter m ashape fshape fp).size = (footprintCoords fshape fp).length := by
+  simp [mkFIter, initFilterOffsets, footprintSize, footprintCoords]
+
 end FilterIter
+
+open FilterIter in
+/-- **F6.** For every rank, every array shape and filter shape with entries ≥ 1 (filter smaller than,
+    equal to or larger than the array, even or odd), every border mode and every footprint:
+    after `i` calls of `iterate_both` (`i <` number of elements) the array iterator is at the
+    position `unravel ashape i` of the C scan order, and `retrieve(·, j, ·)` reads the table entry
+    whose coordinate offsets are exactly those of the closed form at that position for the `j`-th
+    footprint element — in every axis `fix(mode, p_d + k_d − ⌊fshape_d/2⌋, ashape_d) − p_d`, or the
+    flag if some axis is flagged. (The table is `init_filter_offsets`, the pointer arithmetic
+    `init_filter_iterator` + `iterate_both`, all as transliterated in `Model/FilterIter.lean`.) -/
+theorem filterIter_refines (m : Mode) (ashape fshape : List Nat) (fp : Array Bool)
+    (hlen : ashape.length = fshape.length)
+    (ha : ∀ a ∈ ashape, 1 ≤ a) (hf : ∀ f ∈ fshape, 1 ≤ f)
+    (i : Nat) (hi : i < shapeSize ashape)
+    (j : Nat) (hj : j < (footprintCoords fshape fp).length) :
+    retrieve (mkFIter m ashape fshape fp) (stateAfter (mkFIter m ashape fshape fp) ashape i) j =
+      some (closedForm m ashape fshape (unravelI ashape i) ((footprintCoords fshape fp)[j])) := by
+  have hX := axesOf_pos ashape fshape ha hf
+  have hjs : j < footprintSize fshape fp := by
+    simpa [footprintCoords, footprintSize] using hj
+  have hjI : j < (fpIdx fshape fp).length := by
+    simpa [footprintCoords_eq] using hj
+  rw [stateAfter_eq m ashape fshape fp hlen ha hf i]
+  unfold retrieve
+  simp only [mkFIter, initFilterOffsets, List.getElem?_toArray]
+  have hidx : ((footprintSize fshape fp : Nat) : Int) * ((regionOf (axesOf ashape fshape) i : Nat) : Int)
+      + (j : Int) = ((footprintSize fshape fp * regionOf (axesOf ashape fshape) i + j : Nat) : Int) := by
+    push_cast; rfl
+  rw [hidx, Int.toNat_natCast]
+  have hz1 : (fshape.map fun _ => (0 : Int)) = digC fshape 0 := by
+    unfold digC
+    rw [digits_zero id natDig fshape.reverse (fun _ _ => rfl), zeros_reverse]
+  have hz2 : (ashape.map fun _ => (0 : Int)) = digits nReg repDig (axesOf ashape fshape) 0 := by
+    rw [digits_zero nReg repDig _ (fun x _ => by simp [repDig, rep_zero])]
+    simp [axesOf, List.map_const', hlen]
+  rw [hz1, hz2, llLoop_get m ashape fshape fp ha hf _ 0 _ j
+    (by rw [offsetsSize_eq]; exact regionOf_lt _ hX i) hjs]
+  rw [Nat.zero_add, digits_regionOf _ hX]
+  unfold regionEntries
+  rw [List.getElem?_map, List.getElem?_eq_getElem hjI, Option.map_some]
+  have hk := mem_fpIdx_lt (List.getElem_mem hjI)
+  rw [digC_reverse fshape _ hk, repDigits_reverse ashape fshape hlen i hi]
+  have hin := unravel_inside fshape _ hk
+  rw [entry_closedForm m ashape fshape _ (unravel ashape i) hlen (by simp [unravel_length]) hin]
+  simp only [footprintCoords_eq, List.getElem_map]
+  rfl
+
+open FilterIter in
+/-- the position part of F6: after `i` calls of `iterate_both` the array iterator (whose
+    `position_` is stored reversed) is at the C-order position `unravel ashape i`. -/
+theorem filterIter_position (m : Mode) (ashape fshape : List Nat) (fp : Array Bool)
+    (hlen : ashape.length = fshape.length)
+    (ha : ∀ a ∈ ashape, 1 ≤ a) (hf : ∀ f ∈ fshape, 1 ≤ f)
+    (i : Nat) (hi : i < shapeSize ashape) :
+    (stateAfter (mkFIter m ashape fshape fp) ashape i).posRev.reverse = unravelI ashape i := by
+  rw [stateAfter_eq m ashape fshape fp hlen ha hf i]
+  exact digC_reverse ashape i hi
+
+open FilterIter in
+/-- F6 for the element offsets the code actually stores (`offset += astrides[ii] * cc`): they are the
+    image of the coordinate offsets under the linear map `elemOffset astrides`, whatever the strides. -/
+theorem filterIter_refines_elemOffset (astrides : List Int) (m : Mode) (ashape fshape : List Nat)
+    (fp : Array Bool) (hlen : ashape.length = fshape.length)
+    (ha : ∀ a ∈ ashape, 1 ≤ a) (hf : ∀ f ∈ fshape, 1 ≤ f)
+    (i : Nat) (hi : i < shapeSize ashape)
+    (j : Nat) (hj : j < (footprintCoords fshape fp).length) :
+    (retrieve (mkFIter m ashape fshape fp) (stateAfter (mkFIter m ashape fshape fp) ashape i) j).map
+        (Option.map (elemOffset astrides)) =
+      some ((closedForm m ashape fshape (unravelI ashape i) ((footprintCoords fshape fp)[j])).map
+        (elemOffset astrides)) := by
+  rw [filterIter_refines m ashape fshape fp hlen ha hf i hi j hj]
+  rfl
+
+namespace FilterIter
+
+theorem mechanismWalk_go (fi : FIter) (ashape : List Nat) (k t : Nat) :
+    mechanismWalk.go fi ashape k (stateAfter fi ashape t) =
+      (List.range' t k).map fun i => (List.range fi.size).map fun j =>
+        (retrieve fi (stateAfter fi ashape i) j).getD (some [2147483647]) := by
+  induction k generalizing t with
+  | zero => rfl
+  | succ k ih =>
+    rw [mechanismWalk.go, List.range'_succ, List.map_cons]
+    congr 1
+    exact ih (t + 1)
+
+end FilterIter
+
+open FilterIter in
+/-- F6 as the driver prints it (op `f6`): the `table=` and `closed=` answers are the same list. -/
+theorem filterIter_refines_walk (m : Mode) (ashape fshape : List Nat) (fp : Array Bool)
+    (hlen : ashape.length = fshape.length)
+    (ha : ∀ a ∈ ashape, 1 ≤ a) (hf : ∀ f ∈ fshape, 1 ≤ f) :
+    mechanismWalk (mkFIter m ashape fshape fp) ashape (shapeSize ashape) =
+      closedWalk m ashape fshape fp := by
+  unfold mechanismWalk closedWalk allPos
+  have h0 : initState ashape = stateAfter (mkFIter m ashape fshape fp) ashape 0 := rfl
+  rw [h0, mechanismWalk_go, ← List.range_eq_range', List.map_map]
+  apply List.map_congr_left
+  intro i hi
+  have hi' : i < shapeSize ashape := List.mem_range.mp hi
+  apply List.ext_getElem
+  · simp [mkFIter_size]
+  · intro j h1 h2
+    have hj : j < (footprintCoords fshape fp).length := by simpa using h2
+    simp only [List.getElem_map, List.getElem_range, Function.comp]
+    rw [filterIter_refines m ashape fshape fp hlen ha hf i hi' j hj]
+    rfl
+
+/-! non-vacuity: a 1-D array of 5 under a filter of 3 (`nearest`): at the last position the third
+    footprint element is clamped back onto the position itself; 2-D, filter larger than the array,
+    `constant`: the element is flagged -/
+example : FilterIter.retrieve (FilterIter.mkFIter .nearest [5] [3] #[true, true, true])
+    (FilterIter.stateAfter (FilterIter.mkFIter .nearest [5] [3] #[true, true, true]) [5] 4) 2
+    = some (some [0]) := by decide
+example : FilterIter.closedForm .nearest [5] [3] [4] [2] = some [0] := by decide
+example : FilterIter.closedForm .constant [2, 2] [3, 5] [1, 1] [0, 4] = none := by decide
+
 end Mahotas
